@@ -979,7 +979,10 @@ namespace awkward {
       return std::make_shared<NumpyArray>(tonum);
     }
     else {
-      ContentPtr next = content_.get()->num(posaxis, depth + 1);
+      int64_t start = (int64_t)offsets_.getitem_at_nowrap(0);
+      int64_t stop = (int64_t)offsets_.getitem_at_nowrap(offsets_.length() - 1);
+      ContentPtr next = content_.get()->getitem_range_nowrap(start, stop).get()
+                        ->num(posaxis, depth + 1);
       Index64 offsets = compact_offsets64(true);
       return std::make_shared<ListOffsetArray64>(Identities::none(),
                                                  util::Parameters(),
